@@ -47,7 +47,8 @@ class Run:
 
         def glob(frame, event, arg):
             code = frame.f_code
-            if code.co_filename == self.target_file and code.co_qualname in self.traced:
+            files = self.target_file if isinstance(self.target_file, (tuple, list, set)) else (self.target_file,)
+            if code.co_filename in files and (self.traced is None or code.co_qualname in self.traced):
                 return local
             return None
 
